@@ -190,6 +190,10 @@ pub struct Fault {
     /// fires on the n-th (0-based) operation of this kind on this target
     pub nth: u32,
     pub kind: FaultKind,
+    /// true: every operation of this kind on this target from the n-th on fails this way (a
+    /// broken disk rather than a transient error)
+    #[serde(default, skip_serializing_if = "std::ops::Not::not")]
+    pub persistent: bool,
 }
 
 #[derive(Serialize, Deserialize, Clone, Debug, PartialEq, Eq)]
@@ -318,6 +322,17 @@ pub struct Scenario {
     /// when present the child does not run the CLI at all but calls the pure public API
     #[serde(default)]
     pub pure: Option<PureJob>,
+    /// Path discovery (directory walk, glob, --files-from) is REAL code (walkdir, glob, std::fs)
+    /// on the real file system. When set, the child creates a private scratch directory with an
+    /// empty placeholder for every simulated file plus the `real_files` below, and makes it its
+    /// working directory; file *contents* and every open/read/write still go to the simulated
+    /// file system under the same relative path.
+    #[serde(default)]
+    pub real_tree: bool,
+    /// real files (relative path, text) to create in the scratch directory, e.g. a
+    /// `--files-from` list
+    #[serde(default)]
+    pub real_files: Vec<(String, String)>,
 }
 
 #[derive(Serialize, Deserialize, Clone, Debug, PartialEq, Eq)]
